@@ -1,6 +1,7 @@
 //@ unit: record
 //@ inject-into: serde_avro_fast/src/ser/serializer/struct_or_map.rs
 //@ requires-unit: schema_helper
+//@ requires-unit: ser_cells
 //@ anchor: serde_avro_fast/src/ser/serializer/struct_or_map.rs :: fn field_idx<'s>\(
 //@ anchor: serde_avro_fast/src/ser/serializer/struct_or_map.rs :: fn serialize_record_value<'r, 'c, 's, W: Write, T: \?Sized>\(
 //@ anchor: serde_avro_fast/src/ser/serializer/struct_or_map.rs :: fn end\(mut self\) -> Result<\(\), SerError> \{
@@ -11,10 +12,11 @@
 // ---------------------------------------------------------------------------------------------
 // C13 (field-order independence) and C14 (pooled buffers stay clean) on the real record
 // machinery: SerializeStruct::serialize_field -> field_idx -> serialize_record_value, end(), Drop.
-// record R { a: long, b: ["null","long"], c: long }.
+// record R2 { a: long, b: null, c: long } (quick) / R { a: long, b: ["null","long"], c: long } (thorough).
 // ---------------------------------------------------------------------------------------------
 
-use crate::schema::self_referential::__verif_schema_helper::{record_of, N_LONG, RECORD_ABC, UNION_NULL_LONG};
+use crate::schema::self_referential::__verif_schema_helper::{record_of, N_LONG, N_NULL, RECORD_ABC, RECORD_ANC, UNION_NULL_LONG};
+use crate::ser::__verif_ser_cells::*;
 use std::mem::ManuallyDrop;
 
 /// representation invariant of the configuration's buffer pools (C14)
@@ -38,6 +40,9 @@ fn pool_wf(cfg: &SerializerConfig<'_>) -> bool {
 }
 
 const NAMES: [&str; 4] = ["a", "b", "c", "x"];
+/// quick tier: field b is an always-null field (record R2); the union-typed b (record R) needs the
+/// real union arm and is heavier: see the *_union_field harnesses (thorough)
+const B_IS_UNION: bool = false;
 
 /// One `serialize_field(name, value)` step.
 ///
@@ -58,6 +63,7 @@ fn present_one<W: Write>(
 	s: &mut SerializeStructAsRecordOrMapOrDuration<'_, '_, 'static, W>,
 	want: usize,
 	value: &i64,
+	b_is_union: bool,
 ) -> Result<(), SerError> {
 	match &mut s.kind {
 		Kind::Record(KindRecord { serializer_state, record_state }) => {
@@ -78,7 +84,8 @@ fn present_one<W: Write>(
 			// literal nodes per index so that CBMC sees a constant node kind at each call site
 			match idx {
 				0 => serialize_record_value(serializer_state, record_state, 0, &N_LONG, value),
-				1 => serialize_record_value(serializer_state, record_state, 1, &UNION_NULL_LONG, value),
+				1 if b_is_union => serialize_record_value(serializer_state, record_state, 1, &UNION_NULL_LONG, value),
+				1 => serialize_record_value(serializer_state, record_state, 1, &N_NULL, &()),
 				_ => serialize_record_value(serializer_state, record_state, 2, &N_LONG, value),
 			}
 		}
@@ -92,14 +99,18 @@ fn present(
 	n: usize,
 	which: [usize; 3],
 	vals: [i64; 3],
+	b_is_union: bool,
 ) -> Result<Vec<u8>, SerError> {
 	let mut state = SerializerState::from_writer(Vec::new(), cfg);
 	let res = {
-		let mut s = SerializeStructAsRecordOrMapOrDuration::record(&mut state, record_of(&RECORD_ABC));
+		let mut s = SerializeStructAsRecordOrMapOrDuration::record(
+			&mut state,
+			record_of(if b_is_union { &RECORD_ABC } else { &RECORD_ANC }),
+		);
 		let mut i = 0;
 		let mut err = None;
 		while i < n {
-			let r = present_one(&mut s, which[i], &vals[i]);
+			let r = present_one(&mut s, which[i], &vals[i], b_is_union);
 			if let Err(e) = r {
 				err = Some(e);
 				break;
@@ -125,7 +136,7 @@ fn present(
 
 /// reference: what the specification says the record's bytes are, or None if the presentation
 /// is not a valid one (unknown field, duplicate, missing non-nullable field)
-fn reference(n: usize, which: [usize; 3], vals: [i64; 3]) -> Option<([u8; 4], usize)> {
+fn reference(n: usize, which: [usize; 3], vals: [i64; 3], b_is_union: bool) -> Option<([u8; 4], usize)> {
 	let mut seen = [false; 3];
 	let mut v = [0i64; 3];
 	let mut i = 0;
@@ -144,15 +155,17 @@ fn reference(n: usize, which: [usize; 3], vals: [i64; 3]) -> Option<([u8; 4], us
 	let mut k = 0;
 	out[k] = spec_enc_long(v[0]).0[0];
 	k += 1;
-	if seen[1] {
-		out[k] = 2; // branch 1 ("long") of ["null","long"]
-		k += 1;
-		out[k] = spec_enc_long(v[1]).0[0];
-		k += 1;
-	} else {
-		out[k] = 0; // branch 0 ("null")
-		k += 1;
-	}
+	if b_is_union {
+		if seen[1] {
+			out[k] = 2; // branch 1 ("long") of ["null","long"]
+			k += 1;
+			out[k] = spec_enc_long(v[1]).0[0];
+			k += 1;
+		} else {
+			out[k] = 0; // branch 0 ("null")
+			k += 1;
+		}
+	} // a `null` field encodes as zero bytes whether presented or omitted
 	out[k] = spec_enc_long(v[2]).0[0];
 	k += 1;
 	Some((out, k))
@@ -172,21 +185,49 @@ fn symbolic_presentation() -> (usize, [usize; 3], [i64; 3]) {
 //@ harness: c13_record_any_order
 //@   props: C13, C14, C02
 //@   tier: quick
-//@   kind: bounded(record of 3 fields a: long, b: ["null","long"], c: long; every presentation of <= 3 (name, value) pairs over names {a,b,c,x}: all orders, omissions, duplicates, unknown; values one-byte varints); field_idx replaced by its assumed contract (A2'), see present_one
+//@   kind: bounded(record of 3 fields a: long, b: null, c: long; every presentation of <= 3 (name, value) pairs over names {a,b,c,x}: all orders, omissions, duplicates, unknown; values one-byte varints); field_idx replaced by its assumed contract (A2'), see present_one
 //@   fn: ser::serializer::struct_or_map::{serialize_record_value, SerializeStructAsRecordOrMapOrDuration::{record, end}, KindRecord::drop}
 //@   domain: 4^3 name sequences x lengths 0..=3 x symbolic values - exhaustive for this record by symbolic choice
 //@   post: Ok(bytes) iff no unknown name, no duplicate, a and c present; then bytes == schema-order encoding with null for omitted b; otherwise Err; never a panic (the "should have hit first.name" panic and the `is_empty` pool assertions are obligations); afterwards every pooled buffer is empty (pool_wf)
 #[kani::proof]
 #[kani::unwind(6)]
 #[kani::stub(alloc::fmt::format, stub_format)]
+#[kani::stub(DatumSerializer::serialize_union_unnamed, DatumSerializer::verif_unreachable_union_arm)]
 fn c13_record_any_order() {
 	let (n, which, vals) = symbolic_presentation();
 	let mut cfg = ManuallyDrop::new(SerializerConfig::new_with_optional_schema(None));
-	let r = present(&mut cfg, n, which, vals);
-	let want = reference(n, which, vals);
+	let r = present(&mut cfg, n, which, vals, B_IS_UNION);
+	let want = reference(n, which, vals, B_IS_UNION);
 	kani::cover!(r.is_ok() && n == 3 && which[0] == 2 && which[1] == 1 && which[2] == 0, "COV reverse order accepted");
 	kani::cover!(r.is_ok() && n == 2 && which[0] == 2, "COV b omitted, c before a");
 	kani::cover!(r.is_err() && n == 3 && which[0] == 1 && which[1] == 1, "COV duplicate rejected");
+	match (&r, want) {
+		(Ok(bytes), Some((e, k))) => {
+			assert!(bytes.len() == k && bytes[..] == e[..k], "OBL C13.record.bytes_are_schema_order_encoding_whatever_the_presentation_order");
+		}
+		(Ok(_), None) => assert!(false, "OBL C13.record.unknown_duplicate_or_missing_required_field_must_be_err"),
+		(Err(_), Some(_)) => assert!(false, "OBL C13.record.valid_presentation_must_serialize"),
+		(Err(_), None) => {}
+	}
+	assert!(pool_wf(&cfg), "OBL C14.pool.every_pooled_buffer_is_empty_after_success_or_failure");
+	std::mem::forget(r);
+}
+
+//@ harness: c13_record_any_order_union_field
+//@   props: C13, C14
+//@   tier: thorough
+//@   kind: bounded(record of 3 fields a: long, b: ["null","long"], c: long; every presentation of <= 3 pairs; values one-byte varints); field_idx replaced by its assumed contract (A2')
+//@   fn: ser::serializer::struct_or_map::{serialize_record_value, end (omitted nullable union field => null branch discriminant), KindRecord::drop} + DatumSerializer::serialize_union_unnamed
+//@   domain: as c13_record_any_order with a nullable-union field
+//@   post: as c13_record_any_order; an omitted b is encoded as the union's null branch, a presented b as branch 1 + long
+#[kani::proof]
+#[kani::unwind(6)]
+#[kani::stub(alloc::fmt::format, stub_format)]
+fn c13_record_any_order_union_field() {
+	let (n, which, vals) = symbolic_presentation();
+	let mut cfg = ManuallyDrop::new(SerializerConfig::new_with_optional_schema(None));
+	let r = present(&mut cfg, n, which, vals, true);
+	let want = reference(n, which, vals, true);
 	match (&r, want) {
 		(Ok(bytes), Some((e, k))) => {
 			assert!(bytes.len() == k && bytes[..] == e[..k], "OBL C13.record.bytes_are_schema_order_encoding_whatever_the_presentation_order");
@@ -209,17 +250,18 @@ fn c13_record_any_order() {
 #[kani::proof]
 #[kani::unwind(6)]
 #[kani::stub(alloc::fmt::format, stub_format)]
+#[kani::stub(DatumSerializer::serialize_union_unnamed, DatumSerializer::verif_unreachable_union_arm)]
 fn c14_reuse_after_any_history() {
 	let (n, which, vals) = symbolic_presentation();
 	let mut cfg = ManuallyDrop::new(SerializerConfig::new_with_optional_schema(None));
-	let first = present(&mut cfg, n, which, vals);
+	let first = present(&mut cfg, n, which, vals, B_IS_UNION);
 	kani::cover!(first.is_err() && n == 3, "COV history with a failure at the last field");
 	kani::cover!(first.is_ok() && which[0] != 0, "COV history with buffering");
 	std::mem::forget(first);
 	let pv: [i64; 3] = kani::any();
 	kani::assume(pv[0] >= -64 && pv[0] < 64 && pv[1] >= -64 && pv[1] < 64 && pv[2] >= -64 && pv[2] < 64);
-	let probe = present(&mut cfg, 3, [2, 1, 0], pv);
-	let want = reference(3, [2, 1, 0], pv);
+	let probe = present(&mut cfg, 3, [2, 1, 0], pv, B_IS_UNION);
+	let want = reference(3, [2, 1, 0], pv, B_IS_UNION);
 	match (&probe, want) {
 		(Ok(bytes), Some((e, k))) => assert!(bytes.len() == k && bytes[..] == e[..k], "OBL C14.reuse.probe_bytes_equal_fresh_configuration_bytes"),
 		_ => assert!(false, "OBL C14.reuse.probe_must_succeed_on_a_used_configuration"),
@@ -235,10 +277,11 @@ fn c14_reuse_after_any_history() {
 #[kani::proof]
 #[kani::unwind(6)]
 #[kani::stub(alloc::fmt::format, stub_format)]
+#[kani::stub(DatumSerializer::serialize_union_unnamed, DatumSerializer::verif_unreachable_union_arm)]
 fn c13_record_canary() {
 	let (n, which, vals) = symbolic_presentation();
 	let mut cfg = ManuallyDrop::new(SerializerConfig::new_with_optional_schema(None));
-	let r = present(&mut cfg, n, which, vals);
+	let r = present(&mut cfg, n, which, vals, B_IS_UNION);
 	assert!(r.is_err(), "OBL canary");
 	std::mem::forget(r);
 }
